@@ -243,6 +243,62 @@ def gen_radix(ctx, scale, narrow):
                 cases.append('RADIXP %d %d %s' % (R, n, ' '.join(str(r.below(65536 if r.chance(1, 2) else 40)) for _ in range(n))))
     return cases
 
+def gen_sorttrace(ctx, scale, maxlen):
+    """cases for the swap-trace tie of the SORT model: HSORT (real HashSorter::Sort/SortPrehashed, R=8, 64-bit codes) and
+    RSORT R W g (real RadixSorter<R> on W-bit codes with a logging swapper and, if g, HashSorter's group callback)"""
+    r = ctx.rng; hs = []; rs = []
+    for hk in ('const', 'collide', 'extreme', 'ident', 'spread', 'top'):
+        H = HK[hk]
+        for n in range(0, maxlen + 1):
+            for seq in itertools.product((0, 1, 2), repeat=n):
+                pairs = [(H(x), x) for x in seq]
+                hs.append(line('HSORT', 'p' if (n + len(hs)) % 2 else 'h', pairs))
+    def rline(R, W, g, pairs):
+        return ' '.join(('RSORT %d %d %d %d %s' % (R, W, g, len(pairs), ' '.join('%d %d' % p for p in pairs))).split())
+    for R in (1, 2, 3, 8):
+        for W in (8, 64):
+            codes = {'low': lambda i: i, 'high': lambda i: i << (W - 2), 'const': lambda i: 5,
+                     'collide': lambda i: (i % 2) << (W - 1) | 1, 'mixed': lambda i: (1, (1 << (W - 1)) | 1, 1 << (W - 1))[i % 3]}
+            for ck, C in codes.items():
+                for n in range(0, maxlen + 1):
+                    for seq in itertools.product((0, 1, 2), repeat=n):
+                        rs.append(rline(R, W, 1 if ck in ('const', 'collide') or n % 2 else 0, [(C(x), x) for x in seq]))
+    for rep in range(500 * scale):
+        R = r.choice([1, 2, 3, 4, 5, 8]); W = r.choice([8, 16, 32, 64]); n = r.choice([7, 9, 12, 17, 31, 32, 33, 34, 40, 65, 120])
+        kind = r.below(5)
+        if kind == 0: pool = [r.below(2 ** W) for _ in range(n)]
+        elif kind == 1: pool = [r.below(2 ** W) for _ in range(r.range(1, 4))]
+        elif kind == 2: pool = [r.below(min(2 ** W, 2 ** r.range(1, 9))) for _ in range(n)]
+        elif kind == 3: pool = [(r.below(8) << (W - 3)) | r.below(2) for _ in range(n)]
+        else: pool = [r.below(2 ** W)] * 2 + [0, 2 ** W - 1]
+        pairs = []
+        for _ in range(n):
+            c = r.choice(pool); pairs.append((c, (c % 1000) * 10 + r.below(3)))    # up to 3 different items per code
+        rs.append(rline(R, W, r.below(2), pairs))
+    for rep in range(40 * scale):
+        for n in (20, 31, 32, 33, 34, 40, 64, 100, 257):
+            kindh = r.choice(['uniform', 'low', 'high', 'two', 'const', 'skew', 'mid', 'few'])
+            pairs = list(rand_valid_array(r, n, kindh)); r.shuffle(pairs)
+            hs.append(line('HSORT', r.choice(['p', 'h']), pairs))
+    return hs, rs
+
+def sorttrace_oracle(ctx, c, out):
+    w = c.split()
+    if out.startswith('OOB'): return 'Sort read/wrote outside the array'
+    if w[0] == 'HSORT': n = int(w[2]); nums = list(map(int, w[3:])); g = 1
+    else: n = int(w[4]); nums = list(map(int, w[5:])); g = int(w[3])
+    pairs = [(nums[2 * i], nums[2 * i + 1]) for i in range(n)]
+    try:
+        on = list(map(int, out.split('|')[0].split()))
+        outp = [(on[2 * i], on[2 * i + 1]) for i in range(n)]
+    except (ValueError, IndexError):
+        return 'unparsable output %r' % out[:80]
+    if sorted(pairs) != sorted(outp): return 'Sort output is not a permutation of the input (code,item) pairs'
+    if not is_hash_sorted(outp): return 'Sort output codes are not non-decreasing'
+    if g and not sorted_spec(outp): return 'Sort output: equal items are not contiguous inside a code run'
+    if n >= 3: ctx.nontrivial.add(c)
+    return None
+
 def radix_oracle(ctx, c, out):
     w = c.split()
     if out.startswith('OOB'): return 'RadixSorter wrote outside the array'
@@ -278,6 +334,8 @@ def oracle_one(ctx, c, out):
     w = c.split()
     if w[0] in ('RADIX', 'RADIXP'):
         return radix_oracle(ctx, c, out)
+    if w[0] in ('HSORT', 'RSORT'):
+        return sorttrace_oracle(ctx, c, out)
     if w[0] in ('MS', 'SC', 'CMP'):
         a = int(w[1]); b = int(w[2]) if len(w) > 2 else 0
         try: v = int(out)
@@ -362,7 +420,7 @@ def run_oracle(ctx, harness, cases, name):
 
 def replay(ctx, rp):
     case = rp.get('case')
-    if case and case.startswith('RADIX'):
+    if case and (case.startswith('RADIX') or case.startswith('RSORT')):
         harness = ctx.cxx('harness_radix.cpp', 'harness_radix', ['-fsanitize=shift', '-fno-sanitize-recover=all'])
     else:
         harness = ctx.cxx('harness.cpp', 'harness')
@@ -409,6 +467,9 @@ def run(ctx):
     b, sort_out = run_oracle(ctx, harness, sorts, 'oracle-sort'); bad += b
     radix = gen_radix(ctx, scale, False)
     b, _ = run_oracle(ctx, hradix, radix, 'oracle-radix'); bad += b
+    st_hs, st_rs = gen_sorttrace(ctx, scale, maxlen)
+    b, _ = run_oracle(ctx, harness, st_hs, 'oracle-sorttrace-hs'); bad += b
+    b, _ = run_oracle(ctx, hradix, st_rs, 'oracle-sorttrace-radix'); bad += b
     # radix size wider than the code type (R > 8*sizeof(Code)): the first shift used to wrap around (fixed in /repo bb23c06);
     # the harness is built with -fsanitize=shift, so the undefined shift aborts it; separate run so a crash cannot mask other cases
     narrow = gen_radix(ctx, scale, True)
@@ -432,17 +493,18 @@ def run(ctx):
                 nums = out.split('|')[0].split()
                 outp = ' '.join('%s %s' % (nums[3 * i], nums[3 * i + 1]) for i in range(len(pairs)))
                 chk.append(' '.join(('CHK ' + c[5:] + ' ' + outp).split()))
-        for name, cs in (('leaves', leaves), ('small', small), ('long', longc), ('sort-check', chk)):
-            mism, _ = ctx.correspond(name, cs, [harness], [ctx.model_exe])
+        for name, cs, hx in (('leaves', leaves, harness), ('small', small, harness), ('long', longc, harness), ('sort-check', chk, harness),
+                             ('sort-trace-hashsorter', st_hs, harness), ('sort-trace-radixsorter', st_rs, hradix)):
+            mism, _ = ctx.correspond(name, cs, [hx], [ctx.model_exe])
             ctx.tie_obligations.append({'name': 'model == real code on %d %s cases (results + read traces)' % (len(cs), name), 'ok': not mism})
             mism.sort(key=lambda t: len(t[1]))
             for (i, c, a, b) in mism[:2]:
                 ctx.violation('model and implementation disagree (%s)' % name, {'case': c, 'impl': a[:2000], 'model': b[:2000],
                               'cmd': 'echo "<case>" | build/C17/harness'}, found_input=True)
-    allc = leaves + small + longc + sorts + radix + narrow
+    allc = leaves + small + longc + sorts + radix + narrow + st_hs + st_rs
     for c in (small[len(small) // 2], small[-1], longc[0], sorts[len(sorts) // 3], leaves[5]):
         ctx.add_sample(c[:300])
-    ctx.coverage['input_distribution'] = {k: sum(1 for c in allc if c.startswith(k + ' ')) for k in ('MS', 'SC', 'CMP', 'FH', 'F', 'B', 'S', 'SORT', 'RADIX', 'RADIXP')}
+    ctx.coverage['input_distribution'] = {k: sum(1 for c in allc if c.startswith(k + ' ')) for k in ('MS', 'SC', 'CMP', 'FH', 'F', 'B', 'S', 'SORT', 'RADIX', 'RADIXP', 'HSORT', 'RSORT')}
     ctx.coverage['max_array_length'] = max(int(c.split()[2]) for c in longc + sorts)
     ctx.coverage['radix'] = 'RadixSorter<1..16> x codes of 8/16/32/64 bits x sizes around the selection-sort threshold 2^(R/2+1) + pointers; std sorted() oracle + groupFunc-call oracle'
     return ctx.finish(rule=RULE)
